@@ -91,7 +91,7 @@ func init() {
 		st := chainExplore(c, cfg)
 		return chainDone(c, cfg, st)
 	}
-	registerMonCheck("C25", "slashing", []string{"mon:slashing", "valset", "nodepool", "supply"},
+	registerMonCheck("C25", "slashing", []string{"mon:slashing", "valset", "nodepool", "supply", "sessions"},
 		func(tier string) []EnvCfg {
 			e := defaultEnv()
 			e.MaxValidators = 3
@@ -124,5 +124,5 @@ func init() {
 		},
 		[2]int{4, 5},
 		"After every block: stake removed from nodes by slashing == decrease of the total supply (no other burns or mints in the menu), never more than the stake; a node whose stake fell below the minimum is jailed and queued to unstake; every unjail request is accepted iff (authorized signer, node jailed, stake >= minimum, block time >= jailed-until) evaluated on the state before the block; jailed nodes are outside the folded consensus set (valset invariant); pool and supply invariants in every final state.",
-		[]string{"missed-signature windows: SignedBlocksWindow 10, MinSignedPerWindow 0.9 (two misses jail); evidence age limit 4 block intervals", "session membership of jailed nodes is checked by C33 on states produced by this menu"})
+		[]string{"missed-signature windows: SignedBlocksWindow 10, MinSignedPerWindow 0.9 (two misses jail); evidence age limit 4 block intervals", "the session dispatched in every final state is checked with the C33 oracle (no jailed node, only nodes staked at session start)"})
 }
